@@ -31,7 +31,7 @@ func init() {
 		Run:         runC15,
 		Floors: func(tier string) map[string]int {
 			return map[string]int{"drops": 100, "recreates": 100, "drop_seen_by_connected": 20, "drop_seen_by_stalled": 8, "drop_seen_by_restarted": 8, "drop_seen_by_fresh": 8, "primary_restarts_after_drop": 8, "empty_recreate_unlinked": 10,
-				"recreate_replicated": 50, "page_size_changed_on_recreate": 10, "drop_with_pending_wal": 5, "tombstones_decoded": 100}
+				"recreate_replicated": 50, "page_size_changed_on_recreate": 10, "drop_with_pending_wal": 5, "tombstones_decoded": 100, "primary_restarts_before_drop": 8}
 		},
 	})
 }
@@ -175,6 +175,27 @@ func runC15(c *core.Case) {
 			c.Count("drop_with_pending_wal", 1)
 		}
 		w.close()
+
+		if (c.Index/5+cycle)%3 == 1 {
+			// the primary restarts before the drop: at start-up LiteFS replays the newest
+			// transaction file and writes the shared-memory file itself, in rollback-journal
+			// mode too - the drop has to remove what LiteFS created as well
+			cl.Stop(0)
+			if err := cl.Start(0); err != nil || cl.WaitPrimary(0, 10*time.Second) == nil {
+				healthViolations(c, P.Node, "primary restart before the drop", hist)
+				if !c.Violated() {
+					c.Violate("C15/primary-restart-failed", fmt.Sprintf("the primary did not come back before the drop: %v", err), map[string]any{"history": hist})
+				}
+				return
+			}
+			hist = append(hist, "primary restarted before the drop")
+			c.Count("primary_restarts_before_drop", 1)
+			for _, rn := range []*cluster.CNode{R, F} {
+				if rn.Up {
+					_ = cl.WaitConnected(rn.Index, 10*time.Second)
+				}
+			}
+		}
 
 		// arrange the replica situation for this drop
 		switch situation {
